@@ -1,3 +1,5 @@
+import Oidc.Proofs.Session
+import Oidc.Proofs.CodeHandler
 import Oidc.Shapes
 import Oidc.Proofs.Codec
 import Oidc.Facts
@@ -83,5 +85,15 @@ theorem text_SessionData_expireAccessTokenChunks_ok : Oidc.Shapes.Text_SessionDa
 theorem text_SessionData_expireRefreshTokenChunks_ok : Oidc.Shapes.Text_SessionData_expireRefreshTokenChunks := by unfold Oidc.Shapes.Text_SessionData_expireRefreshTokenChunks; rfl
 theorem text_splitIntoChunks_ok : Oidc.Shapes.Text_splitIntoChunks := by unfold Oidc.Shapes.Text_splitIntoChunks; rfl
 theorem text_SessionData_Clear_ok : Oidc.Shapes.Text_SessionData_Clear := by unfold Oidc.Shapes.Text_SessionData_Clear; rfl
+
+/-! ## The same statements about the code itself: the functions below are `Oidc.Generated.Code`, which `tools/go2lean` translates
+    from /repo's source, statement by statement, on every run (meaning of the Go constructs: `Oidc/GoLib.lean`) -/
+open Oidc.Generated Oidc.CodeRefine in
+/-- session.go `splitIntoChunks` as translated never yields a piece longer than the chunk size (what the per-cookie bound is
+    applied to) -/
+theorem code_chunk_pieces_le (s : Str) (n : Int) (hn : 0 < n) :
+    ∃ cs, Code.splitIntoChunks (s.length + 1) s n = some cs ∧ ∀ c ∈ cs, c.length ≤ n.toNat :=
+  ⟨Oidc.Session.splitN n.toNat s, splitIntoChunks_refines s n hn _ (Nat.lt_succ_self _),
+    fun c hc => (Oidc.Session.splitN_piece_le n.toNat s c hc).1⟩
 
 end Oidc.Props.C18
